@@ -897,6 +897,60 @@ F_C20_step(cfg, pre, post) ==
          \cup Chk("C20.records-are-decimals", \A a \in DOMAIN post.recs : post.recs[a].dec)
 
 ----------------------------------------------------------------------------
+(* C19 processor sharing: rate min(1, R/k), at most `capacity` sharing, FCFS line, exit when the   *)
+(* received work equals the requirement.  `left` is the engine's remaining-work variable; its       *)
+(* evolution is checked here against rates computed independently from the observed states.        *)
+
+Dom_C19(cfg) == cfg.P = 1 /\ \A n \in DOMAIN cfg.nodes : cfg.nodes[n].qcap >= INF
+PsNodes(cfg) == {n \in DOMAIN cfg.nodes : cfg.nodes[n].kind = "ps"}
+\* customers sharing the processor at node n: started and not finished
+Sharing(S, n) == {j \in DOMAIN S.cu : S.cu[j].loc = n /\ S.cu[j].ss # NONE}
+
+F_C19_inv(cfg, S) ==
+    IF ~Dom_C19(cfg) THEN {}
+    ELSE Chk("C19.at-most-capacity-sharing-fcfs", \A n \in PsNodes(cfg) :
+            LET q == Qs(S, n)
+                k == Min2(Len(q), cfg.nodes[n].c)
+            IN \* exactly the first min(population, capacity) customers in arrival order are in service
+               \A a \in DOMAIN q : IsLive(S, q[a]) => ((CuOf(S, q[a]).ss # NONE) <=> (a <= k)))
+         \cup Chk("C19.projected-end-at-current-rate", \A n \in PsNodes(cfg) :
+            \* (end - last update) = remaining work * max(k, R) / R, k = number sharing now
+            LET k == Cardinality(Sharing(S, n))
+                R == cfg.nodes[n].psR
+            IN \A j \in Sharing(S, n) :
+                  S.cu[j].left # NONE /\ S.cu[j].left >= 0
+                  /\ (S.cu[j].se - S.cu[j].lupd) * R = S.cu[j].left * Max2(k, R))
+
+F_C19_step(cfg, pre, post) ==
+    IF ~Dom_C19(cfg) THEN {}
+    ELSE
+    Chk("C19.requirement-sampled-at-start", \A a \in IdxOf(post, "svc") :
+           LET s == post.steps[a]
+           IN s.n \in PsNodes(cfg) /\ IsLive(post, s.i) /\ CuOf(post, s.i).loc = s.n /\ CuOf(post, s.i).ss = post.now
+              => CuOf(post, s.i).st = s.y /\ CuOf(post, s.i).left = s.y)
+    \cup Chk("C19.work-progresses-at-shared-rate", \A n \in PsNodes(cfg) :
+           \* a customer sharing before and after the event: its remaining work decreased by
+           \* (time since its last update) * R / max(k, R), k = number sharing BEFORE the event
+           LET k == Cardinality(Sharing(pre, n))
+               R == cfg.nodes[n].psR
+           IN \A j \in Sharing(pre, n) :
+                 LET c == pre.cu[j]
+                 IN IsLive(post, c.id) /\ CuOf(post, c.id).loc = n /\ CuOf(post, c.id).ss = c.ss =>
+                      (c.left - CuOf(post, c.id).left) * Max2(k, R) = (CuOf(post, c.id).lupd - c.lupd) * R)
+    \cup Chk("C19.leaves-exactly-when-work-done", \A a \in IdxOf(post, "release") :
+           \* the departing customer's remaining work is consumed exactly at this instant
+           LET s == post.steps[a]
+           IN s.n \in PsNodes(cfg) /\ s.f = 0 /\ IsLive(pre, s.i) /\ CuOf(pre, s.i).loc = s.n =>
+                LET c == CuOf(pre, s.i)
+                    k == Cardinality(Sharing(pre, s.n))
+                    R == cfg.nodes[s.n].psR
+                IN c.ss # NONE /\ c.left * Max2(k, R) = (post.now - c.lupd) * R /\ c.se = post.now)
+    \cup Chk("C19.unlimited-ps-empties-with-fifo",
+           \* coupled configuration (cfg.couple = <<ps node, fifo node>>): compared when the clock moves on
+           cfg.couple # <<>> /\ post.now > pre.now =>
+              ((pre.nodes[cfg.couple[1]].count = 0) <=> (pre.nodes[cfg.couple[2]].count = 0)))
+
+----------------------------------------------------------------------------
 (* Aggregation *)
 
 StepFails(cfg, pre, post, ob) ==
@@ -906,10 +960,11 @@ StepFails(cfg, pre, post, ob) ==
     \cup F_C08_step(cfg, pre, post) \cup F_C09_step(cfg, pre, post, ob.rt) \cup F_C10_step(cfg, pre, post)
     \cup F_C11_step(cfg, pre, post) \cup F_C13_step(cfg, pre, post) \cup F_C14_step(cfg, pre, post)
     \cup F_C17_step(cfg, pre, post) \cup F_C18_step(cfg, pre, post) \cup F_C20_step(cfg, pre, post)
+    \cup F_C19_step(cfg, pre, post)
 
 \* ob = observer state AFTER the event that produced S
 InvFails(cfg, S, ob) ==
-    F_C17_inv(cfg, S, ob.gb) \cup F_C18_inv(cfg, S, ob.dg) \cup
+    F_C17_inv(cfg, S, ob.gb) \cup F_C19_inv(cfg, S) \cup F_C18_inv(cfg, S, ob.dg) \cup
     F_C01_inv(cfg, S) \cup F_C03_inv(cfg, S) \cup F_C04_inv(cfg, S) \cup F_C12_inv(cfg, S) \cup F_C05_inv(cfg, S) \cup F_C06_inv(cfg, S)
     \cup F_C07_inv(cfg, S) \cup F_C09_inv(cfg, S) \cup F_C10_inv(cfg, S) \cup F_C11_inv(cfg, S)
     \cup F_C13_inv(cfg, S)
